@@ -746,6 +746,12 @@ func (e *Exec) flatKey(v Value, depth int) string {
 		return x.T.S
 	case VStr:
 		return fmt.Sprintf("%q", x.S)
+	case VSymStr:
+		s := "str["
+		for _, f := range x.E {
+			s += e.flatKey(f, depth+1) + ","
+		}
+		return s + "]"
 	case VStruct:
 		s := "{"
 		for _, f := range x.F {
